@@ -22,6 +22,7 @@ struct Case {
 struct Fx {
     files: Vec<(String, Vec<u8>)>,
     plain3: Vec<u8>,
+    plain17: Vec<u8>,
 }
 
 fn fixtures(seed: u64) -> (Fx, Party, Party) {
@@ -79,7 +80,17 @@ fn fixtures(seed: u64) -> (Fx, Party, Party) {
         files.push((format!("{}-trailing.ktl", mode), t));
         files.push((format!("{}-badchunk3.ktl", mode), flip(three, rec3 + 20)));
     }
-    (Fx { files, plain3: p3 }, alice, bob)
+    // a file of 17 chunks (> 1 MiB of plaintext) whose 10th chunk is corrupt
+    let p17 = plaintext(seed ^ 0xd7, 16 * CS + 123);
+    let mut ch17 = vec![CS; 16];
+    ch17.push(123);
+    for (mode, h) in [("key", 132usize), ("pass", 36usize)] {
+        let mut big = if mode == "key" { r::write_key_file(&alice.sk, &bob.pk, &e, &pay, &p17, &ch17).unwrap() } else { r::write_pass_file_with_key(&pk, &salt, &p17, &ch17) };
+        let at = h + 9 * (32 + CS) + 50;
+        big[at] ^= 1;
+        files.push((format!("{}-big-badchunk10.ktl", mode), big));
+    }
+    (Fx { files, plain3: p3, plain17: p17 }, alice, bob)
 }
 
 fn cases(fx: &Fx) -> Vec<Case> {
@@ -151,6 +162,16 @@ fn cases(fx: &Fx) -> Vec<Case> {
         let f = format!("pass-{}.ktl", t);
         add(&format!("pass-decrypt/later-{}", t), vec!["password", "decrypt", &f, "-o", o, "--env-pass"], fpw.to_vec(), None, o, Some(alts));
     }
+    {
+        let alts = vec![fx.plain17[..9 * CS].to_vec()];
+        add("decrypt/later-big-badchunk10", vec!["decrypt", "key-big-badchunk10.ktl", "-t", "bob", "-k", "kr.txt", "-o", o, "--env-pass"], bpw.to_vec(), None, o, Some(alts.clone()));
+        add("pass-decrypt/later-big-badchunk10", vec!["password", "decrypt", "pass-big-badchunk10.ktl", "-o", o, "--env-pass"], fpw.to_vec(), None, o, Some(alts));
+    }
+    // no --env-pass, no terminal, but a line that equals the password at the head of a stdin pipe: still no password source
+    add("encrypt/password-line-on-stdin-pipe", vec!["encrypt", "-t", "bob", "-f", "alice", "-k", "kr.txt", "-o", o], vec![], Some(b"alicepw\nthe rest of stdin is the plaintext\n"), o, None);
+    add("decrypt/password-line-on-stdin-pipe", vec!["decrypt", "key1.ktl", "-t", "bob", "-k", "kr.txt", "-o", o], vec![], Some(b"bobpw\n"), o, None);
+    add("pass-encrypt/password-lines-on-stdin-pipe", vec!["password", "encrypt", "-o", o], vec![], Some(b"filepw\nfilepw\nplaintext follows\n"), o, None);
+    add("pass-decrypt/password-line-on-stdin-pipe", vec!["password", "decrypt", "pass1.ktl", "-o", o], vec![], Some(b"filepw\n"), o, None);
     // ---- password encrypt / decrypt
     add("pass-encrypt/bad-args", vec!["password", "encrypt", "plain.bin", "kr.txt", "-o", o, "--env-pass"], fpw.to_vec(), None, o, None);
     add("pass-encrypt/unknown-option", vec!["password", "encrypt", "plain.bin", "-o", o, "--env-pass", "-t", "bob"], fpw.to_vec(), None, o, None);
@@ -252,6 +273,29 @@ pub fn run(rep: &'static Report) {
             }
         }
     });
+    // interactive variant of the later-chunk failures: password typed (three times) at a terminal that is stdin / the
+    // controlling terminal; the command must still fail once with exit 1 and leave exactly the authenticated prefix
+    let mut tty_jobs = vec![];
+    for c in cs.iter().filter(|c| c.name.contains("/later-") && !c.name.contains("big")) {
+        for (tn, controlling, stdin_tty) in [("tty-is-stdin", false, true), ("tty-controlling", true, false)] {
+            tty_jobs.push((c.clone(), tn, controlling, stdin_tty));
+        }
+    }
+    tty_jobs.par_iter().for_each(|(c, tn, controlling, stdin_tty)| {
+        rep.eval(1);
+        rep.nontrivial(format!("{}-{}", c.name, tn).as_bytes());
+        let mut c2 = c.clone();
+        c2.cmd.args.retain(|a| a != b"--env-pass");
+        let pw = c2.cmd.env.iter().find(|(k, _)| k == "KESTREL_PASSWORD").map(|(_, v)| v.clone()).unwrap_or_default();
+        c2.cmd.env.retain(|(k, _)| k != "KESTREL_PASSWORD");
+        c2.cmd.pty = Some(proc::PtySpec { typed: format!("{}\n{}\n{}\n", pw, pw, pw).into_bytes(), controlling: *controlling, stdin_is_tty: *stdin_tty, stdout_is_tty: false });
+        if let Err(_e) = run_case(&fx, &c2, None) {
+            if let Err(e2) = run_case(&fx, &c2, None) {
+                rep.violation(&format!("{}/{}", c.name, tn), json!({"kind":"case-tty","name":c.name,"tty":tn}), format!("{} with the password typed at a terminal ({}): {}", c.name, tn, e2));
+            }
+        }
+    });
+    rep.extra("interactive_later_chunk_cases", json!(tty_jobs.len()));
     rep.extra("cases", json!(cs.len()));
     rep.extra("commands", json!(["encrypt", "decrypt", "password encrypt", "password decrypt", "key generate"]));
     rep.sample(json!({"case":"encrypt/low-order-recipient","prior":"present","expect":"exit 1; the 200000 sentinel bytes at out.bin are untouched"}));
@@ -263,6 +307,11 @@ pub fn replay(rep: &'static Report, case: &Value) {
     let (fx, _, _) = fixtures(rep.seed);
     let cs = cases(&fx);
     let name = case["name"].as_str().unwrap_or("");
+    if case["kind"] == "case-tty" {
+        println!("  re-running C13 (interactive cases are part of it)");
+        run(rep);
+        return;
+    }
     let c = cs.iter().find(|c| c.name == name).unwrap_or_else(|| crate::report::machinery("unknown case"));
     let sentinel = vec![b'X'; 200_000];
     let prior = if case["prior"] == "present" { Some(&sentinel[..]) } else { None };
